@@ -1,4 +1,5 @@
 import PsModel.Lemmas.C02
+import PsModel.Gen.Handlers
 /-!
 # C02 – property theorems: control flow and exception handling follow Python's paths
 
@@ -141,5 +142,11 @@ def sample : List Stmt :=
               [.tick 5] [.tick 6, .assert_ 7]] [.tick 8],
    .with_ [{ id := 1, suppress := true }] [.while_ 9 [.ret 3] []], .ret 4]
 example : confL Cfg.preFix sample = true ∧ freeJumpL sample = false := by decide
+
+/-- **Tie (translator).**  The statement handlers this model mirrors exist in the extracted source tree (dispatch in
+`aeval` is by handler name). -/
+theorem C02_handlers_present :
+    ∀ h ∈ ["ast_if", "ast_for", "ast_while", "ast_try", "ast_raise", "ast_with", "ast_assert", "ast_break", "ast_continue",
+           "ast_return", "ast_pass", "ast_expr", "ast_asyncfor", "ast_asyncwith"], h ∈ Gen.AST_HANDLERS := by decide
 
 end PsModel.C02
